@@ -445,6 +445,14 @@ def decide_test(expr, facts, resolve=None):
     f = look(e)
     if f is True or f is False:
       return f
+    if f is None and resolve is not None and isinstance(e, ast.Name) and not getattr(e, '_flag_seen', False):
+      # a named condition: range_specified = (control_geos_range is not None)
+      try:
+        r = resolve(e)
+      except Exception:
+        r = None
+      if isinstance(r, (ast.Compare, ast.BoolOp, ast.UnaryOp)) and norm(r) != norm(e):
+        return ev(r)
     return None
   return ev(expr)
 
